@@ -27,6 +27,7 @@ import (
 	"github.com/nspcc-dev/neo-go/pkg/core/state"
 	"github.com/nspcc-dev/neo-go/pkg/core/transaction"
 	"github.com/nspcc-dev/neo-go/pkg/encoding/address"
+	"github.com/nspcc-dev/neo-go/pkg/encoding/bigint"
 	"github.com/nspcc-dev/neo-go/pkg/neotest"
 	"github.com/nspcc-dev/neo-go/pkg/smartcontract"
 	"github.com/nspcc-dev/neo-go/pkg/util"
@@ -48,6 +49,8 @@ type Step struct {
 	V2   string   `json:"v2"`
 	Nm2  string   `json:"nm2"`
 	Meta2 bool    `json:"meta2"`
+	Kb   bool     `json:"kb"`  // put / setEACL: the publicKey argument is not 33 bytes long
+	Ash  int64    `json:"ash"` // seed of the argument shapes the Spec ignores (0: drawn from the scenario seed and the step position)
 	O    string   `json:"o"`
 	K    string   `json:"k"`
 	Amt  int64    `json:"amt"`
@@ -58,6 +61,7 @@ type Scenario struct {
 	N     int    `json:"n"`     // committee size
 	Scale int    `json:"scale"` // index into scales
 	Src   string `json:"src"`   // "tlc" | "rand" | "trap:<name>"
+	VerLen []int `json:"verlen"` // version-field lengths of the container blobs (replay; else drawn from the seed)
 	Steps []Step `json:"steps"`
 }
 
@@ -82,8 +86,6 @@ var ownerNames = []string{"o1", "o2", "oa"}
 // aIdx is AIdx(n) of Container.tla: the (1-based) Alphabet node whose standard account is owner oa's account.
 func aIdx(n int) int { return (n + 1) / 2 }
 
-// version-field lengths of the container blobs (owner offset = 2 + L + 4)
-var cidVerLen = []int{0, 0, 1, 5, 250, 17}
 
 type variant struct {
 	sig, pub, token []byte
@@ -107,6 +109,49 @@ type world struct {
 	stranger                  neotest.Signer
 	seed                      int64
 	step                      int
+	verLen                    []int                      // version-field length of every container blob (moves the owner offset)
+	putOffers, eaclOffers     map[string]string          // descriptors offered so far -> variant
+	bKeys                     map[string]map[string]bool // owner -> keys offered with an empty token (NeoFSID)
+}
+
+var verLens = []int{0, 0, 1, 2, 5, 17, 100, 127, 128, 250, 255}
+
+func offerKey(c string, val, sig, pub, tok []byte) string {
+	return c + "|" + hex.EncodeToString(val) + "|" + hex.EncodeToString(sig) + "|" + hex.EncodeToString(pub) + "|" + hex.EncodeToString(tok)
+}
+
+// shape returns the generator of the argument parts that the Spec ignores or treats as opaque (signature, key and
+// token bytes and lengths, blob tails, overload, zone spelling, free-form ids/details/e-mails, SOA numbers). It is
+// seeded by st.Ash, which is drawn from the scenario seed and the step position unless the scenario fixes it
+// (replay), and recorded in the trace.
+func (w *world) shape(ash *int64) *rand.Rand {
+	if *ash == 0 {
+		*ash = 1 + ((w.seed*1000003+int64(w.step)*7919)&0x3fffffff+0x3fffffff)%0x3fffffff
+	}
+	return rand.New(rand.NewSource(*ash))
+}
+
+func rbytes(r *rand.Rand, n int) []byte {
+	b := make([]byte, n)
+	r.Read(b)
+	return b
+}
+
+// anyBytes: a byte-string argument the contract does not look at: Null, empty, or random of the given lengths
+func anyBytes(r *rand.Rand, lens ...int) any {
+	switch k := r.Intn(len(lens) + 2); {
+	case k == 0:
+		return nil
+	case k == 1:
+		return []byte{}
+	default:
+		return rbytes(r, lens[k-2])
+	}
+}
+
+func asBytes(a any) []byte {
+	b, _ := a.([]byte)
+	return b
 }
 
 func ownerIDOf(h util.Uint160) []byte {
@@ -136,11 +181,19 @@ func deployContainer(c *chain.Chain) util.Uint160 {
 	return c.DeployContainer()
 }
 
-func newWorld(t *testing.T, n int, scale int, seed int64) *world {
+func newWorld(t *testing.T, n int, scale int, seed int64, verlen ...[]int) *world {
 	c := chain.New(t, n, seed)
 	w := &world{t: t, c: c, owners: map[string]neotest.Signer{}, ownerID: map[string][]byte{}, blob: map[string][]byte{},
 		cid: map[string][]byte{}, cidName: map[string]string{}, vars: map[string]variant{}, evars: map[string]variant{},
-		accName: map[string]string{}, U: scales[scale%len(scales)], seed: seed}
+		accName: map[string]string{}, U: scales[scale%len(scales)], seed: seed,
+		putOffers: map[string]string{}, eaclOffers: map[string]string{}, bKeys: map[string]map[string]bool{}}
+	vr := rand.New(rand.NewSource(seed*31 + 7))
+	for i := 0; i < nCids; i++ {
+		w.verLen = append(w.verLen, verLens[vr.Intn(len(verLens))])
+	}
+	if len(verlen) > 0 && len(verlen[0]) == nCids {
+		w.verLen = verlen[0]
+	}
 	w.nns = c.DeployNNS()
 	w.nm = c.DeployNetmap("ContainerFee", int64(0), "ContainerAliasFee", int64(0))
 	w.bal = c.DeployBalance()
@@ -163,8 +216,8 @@ func newWorld(t *testing.T, n int, scale int, seed int64) *world {
 	w.stranger = c.NewUser("stranger", 0)
 	for i := 0; i < nCids; i++ {
 		nm := "c" + strconv.Itoa(i)
-		L := cidVerLen[i]
-		b := detBytes(seed, "blob"+nm, 2+L+4+25+40)
+		L := w.verLen[i]
+		b := detBytes(seed, "blob"+nm, 2+L+4+25+vr.Intn(60)) // the tail after the owner may be empty
 		b[1] = byte(L)
 		copy(b[2+L+4:], w.ownerID[cidOwner[i]])
 		id := sha256.Sum256(b)
@@ -185,15 +238,20 @@ func newWorld(t *testing.T, n int, scale int, seed int64) *world {
 }
 
 // eACL blob of variant v for container c: [x, L, L bytes, 4 bytes, cid, tail]; L depends on the variant
-func (w *world) eaclBlob(c, v string) []byte {
-	L := 0
-	if v == "b" {
-		L = 20
-	}
-	b := detBytes(w.seed, "eacl"+v, 2+L+4+32+10)
+func (w *world) eaclBlob(r *rand.Rand, c string) []byte {
+	L := []int{0, 1, 20, 100, 223}[r.Intn(5)] // the offset byte must stay below 256 - 2 - 4 - ... nothing else limits it
+	b := rbytes(r, 2+L+4+32+r.Intn(40))
 	b[1] = byte(L)
 	copy(b[2+L+4:], w.cid[c])
 	return b
+}
+
+// pubArg: a 33-byte key (random bytes: the contract never decodes it) or, with kb, one of another length
+func pubArg(r *rand.Rand, kb bool) []byte {
+	if kb {
+		return rbytes(r, []int{0, 1, 32, 34, 64, 65}[r.Intn(6)])
+	}
+	return rbytes(r, 33)
 }
 
 func (w *world) cidNameOf(b []byte) string {
@@ -271,36 +329,46 @@ func (w *world) exec(st Step) chain.Rec {
 	sg, names := w.signers(st.S)
 	var r, r2 *chain.Result
 	w.step++
+	sh := w.shape(&st.Ash)
 	switch st.Act {
 	case "put":
-		m, args := w.putCall(st.C, st.V, st.Nm, st.Meta)
+		m, args := w.putCall(sh, st.C, st.V, st.Nm, st.Meta, st.Kb)
 		r = w.c.Run(w.cn, sg, m, args...)
 	case "put2":
 		// two puts as two transactions of ONE block; the second runs on the result of the first
-		m1, a1 := w.putCall(st.C, st.V, st.Nm, st.Meta)
-		m2, a2 := w.putCall(st.C2, st.V2, st.Nm2, st.Meta2)
+		m1, a1 := w.putCall(sh, st.C, st.V, st.Nm, st.Meta, false)
+		m2, a2 := w.putCall(sh, st.C2, st.V2, st.Nm2, st.Meta2, false)
 		rs := w.c.RunBlock(w.bigTx(w.cn, sg, m1, a1...), w.bigTx(w.cn, sg, m2, a2...))
 		r, r2 = rs[0], rs[1]
 	case "delete":
-		r = w.c.Run(w.cn, sg, "delete", w.cid[st.C], detBytes(w.seed, "dsig", 64), []byte{})
+		r = w.c.Run(w.cn, sg, "delete", w.cid[st.C], anyBytes(sh, 64, 65, 1), anyBytes(sh, 1, 42, 300))
 	case "setEACL":
-		v, ok := w.evars[st.V]
-		require.True(w.t, ok, "variant %q", st.V)
-		r = w.c.Run(w.cn, sg, "setEACL", w.eaclBlob(st.C, st.V), v.sig, v.pub, v.token)
+		require.Contains(w.t, []string{"a", "b"}, st.V)
+		blob, sig, pub, tok := w.eaclBlob(sh, st.C), anyBytes(sh, 64, 64, 65, 3), pubArg(sh, st.Kb), anyBytes(sh, 1, 30, 200)
+		w.eaclOffers[offerKey(st.C, blob, asBytes(sig), pub, asBytes(tok))] = st.V
+		r = w.c.Run(w.cn, sg, "setEACL", blob, sig, pub, tok)
 	case "setConfig":
 		key := "ContainerFee"
 		if st.K == "afee" {
 			key = "ContainerAliasFee"
 		}
-		r = w.c.Run(w.nm, sg, "setConfig", []byte("id"), key, w.amount(st.Amt))
+		var val any = w.amount(st.Amt)
+		if sh.Intn(2) == 0 {
+			val = bigint.ToBytes(w.amount(st.Amt)) // the value as the byte string the integer is stored as
+		}
+		r = w.c.Run(w.nm, sg, "setConfig", anyBytes(sh, 2, 32), key, val)
 	case "mint":
-		r = w.c.Run(w.bal, sg, "mint", w.owners[st.O].ScriptHash(), w.amount(st.Amt), []byte("m"))
+		r = w.c.Run(w.bal, sg, "mint", w.owners[st.O].ScriptHash(), w.amount(st.Amt), [][]byte{{}, {1}, rbytes(sh, 32), rbytes(sh, 200)}[sh.Intn(4)])
+		// (not Null: balance.mint FAULTs on Null details - append(mintPrefix, Null...) - a Balance matter, reported)
 	case "nnsReg":
+		// (the e-mail is never empty and has no blank: nns.register accepts such a value, but every later record change
+		// of the domain then FAULTs with "invalid soa record" - an NNS matter, reported)
 		who := w.c.Cmt.ScriptHash()
 		if st.O == "x" {
 			who = w.stranger.ScriptHash()
 		}
-		r = w.c.Run(w.nns, sg, "register", domainOf(st.Nm), who, "ops@nspcc.ru", int64(3600), int64(600), int64(3600*24*365*10), int64(3600))
+		r = w.c.Run(w.nns, sg, "register", domainOf(st.Nm), who, []string{"ops@nspcc.ru", "a@b", "x", "x.y.z-0123456789@" + domainOf(st.Nm)}[sh.Intn(4)], int64(sh.Intn(100000)),
+			int64(sh.Intn(100000)), int64(3600*24*365*(1+sh.Intn(10))), int64(sh.Intn(100000)))
 	case "nnsAdd":
 		r = w.c.Run(w.nns, sg, "addRecord", domainOf(st.Nm), 16, "foreign")
 	default:
@@ -319,7 +387,7 @@ func (w *world) exec(st Step) chain.Rec {
 	}
 	ntf, xfer := w.events(evs)
 	rec := chain.Rec{"act": st.Act, "S": names, "c": st.C, "v": st.V, "nm": st.Nm, "meta": st.Meta, "o": st.O, "k": st.K,
-		"amt": st.Amt, "res": r.Res(), "ret": ret, "ntf": ntf, "xfer": xfer, "fault": r.Fault,
+		"amt": st.Amt, "res": r.Res(), "ret": ret, "ntf": ntf, "xfer": xfer, "fault": r.Fault, "kb": st.Kb, "ash": st.Ash,
 		"c2": "nil", "v2": "nil", "nm2": "nil", "meta2": false, "res2": "nil", "ntf2": []any{}, "xfer2": []any{}}
 	if r2 != nil {
 		evs = nil
@@ -333,21 +401,37 @@ func (w *world) exec(st Step) chain.Rec {
 	return rec
 }
 
-// putCall selects the entry point (putNamed / put with and without the meta argument) and its arguments.
-func (w *world) putCall(c, vn, nm string, meta bool) (string, []any) {
-	v, ok := w.vars[vn]
-	require.True(w.t, ok, "variant %q", vn)
+// putCall selects the entry point (every overload: put with 4 and 5 arguments, putNamed with the default and the
+// spelled-out zone) and draws the arguments the contract stores without looking at them.
+func (w *world) putCall(r *rand.Rand, c, vn, nm string, meta, kb bool) (string, []any) {
+	require.Contains(w.t, []string{"a", "b"}, vn)
 	b := w.blob[c]
 	require.NotNil(w.t, b, "cid %q", c)
+	sig := anyBytes(r, 64, 64, 65, 1)
+	pub := pubArg(r, kb)
+	var tok any = rbytes(r, 1+r.Intn(80)) // variant a: some session token
+	if vn == "b" {                         // variant b: no session token (Null or empty) -> neofsid.addKey(owner, key)
+		tok = []byte{}
+		if r.Intn(2) == 0 {
+			tok = nil
+		}
+		ci, _ := strconv.Atoi(c[1:])
+		o := cidOwner[ci]
+		if w.bKeys[o] == nil {
+			w.bKeys[o] = map[string]bool{}
+		}
+		w.bKeys[o][hex.EncodeToString(pub)] = true
+	}
+	w.putOffers[offerKey(c, b, asBytes(sig), pub, asBytes(tok))] = vn
 	switch {
 	case nm != "nil":
-		return "putNamed", []any{b, v.sig, v.pub, v.token, "alias-" + nm, ""}
+		return "putNamed", []any{b, sig, pub, tok, "alias-" + nm, []string{"", "container"}[r.Intn(2)]}
 	case meta:
-		return "put", []any{b, v.sig, v.pub, v.token, true}
-	case w.step%2 == 0:
-		return "put", []any{b, v.sig, v.pub, v.token, false}
+		return "put", []any{b, sig, pub, tok, true}
+	case r.Intn(2) == 0:
+		return "put", []any{b, sig, pub, tok, false}
 	}
-	return "put", []any{b, v.sig, v.pub, v.token}
+	return "put", []any{b, sig, pub, tok}
 }
 
 // bigTx is chain.Tx with a fixed generous system fee: the fee estimate of chain.Tx comes from a test invocation on
@@ -387,15 +471,14 @@ func (w *world) events(evs []state.NotificationEvent) ([]any, []any) {
 	return ntf, xfer
 }
 
-func (w *world) variantOf(vs map[string]variant, f []stackitem.Item) string {
+// variantOf maps a stored / returned descriptor (value, signature, key, token) of container c to the variant it was
+// offered as.
+func (w *world) variantOf(offers map[string]string, c string, f []stackitem.Item) string {
 	if len(f) != 4 {
 		return "?arity"
 	}
-	for _, nm := range []string{"a", "b"} {
-		v := vs[nm]
-		if bytes.Equal(chain.ItemBytes(f[1]), v.sig) && bytes.Equal(chain.ItemBytes(f[2]), v.pub) && bytes.Equal(chain.ItemBytes(f[3]), v.token) {
-			return nm
-		}
+	if v, ok := offers[offerKey(c, chain.ItemBytes(f[0]), chain.ItemBytes(f[1]), chain.ItemBytes(f[2]), chain.ItemBytes(f[3]))]; ok {
+		return v
 	}
 	return "?variant"
 }
@@ -451,7 +534,7 @@ func (w *world) observe() map[string]any {
 				it, err := stackitem.Deserialize(v)
 				if err == nil {
 					f := structFields(it)
-					vn := w.variantOf(w.vars, f)
+					vn := w.variantOf(w.putOffers, c, f)
 					if len(f) == 4 && !bytes.Equal(chain.ItemBytes(f[0]), w.blob[c]) {
 						vn = "?blob"
 					}
@@ -481,10 +564,7 @@ func (w *world) observe() map[string]any {
 				it, err := stackitem.Deserialize(v)
 				if err == nil {
 					f := structFields(it)
-					vn := w.variantOf(w.evars, f)
-					if vn[0] != '?' && !bytes.Equal(chain.ItemBytes(f[0]), w.eaclBlob(c, vn)) {
-						vn = "?blob"
-					}
+					vn := w.variantOf(w.eaclOffers, c, f)
 					eacl[c] = vn
 					ok = true
 				}
@@ -520,7 +600,7 @@ func (w *world) observe() map[string]any {
 			get[c] = "?err:" + err.Error()
 		default:
 			f := structFields(st[0])
-			vn := w.variantOf(w.vars, f)
+			vn := w.variantOf(w.putOffers, c, f)
 			if len(f) == 4 {
 				h := sha256.Sum256(chain.ItemBytes(f[0]))
 				if !bytes.Equal(h[:], id) {
@@ -554,10 +634,7 @@ func (w *world) observe() map[string]any {
 			if len(f) == 4 && len(chain.ItemBytes(f[0])) == 0 && len(chain.ItemBytes(f[1])) == 0 && len(chain.ItemBytes(f[2])) == 0 && len(chain.ItemBytes(f[3])) == 0 {
 				aeacl[c] = "empty"
 			} else {
-				vn := w.variantOf(w.evars, f)
-				if vn[0] != '?' && !bytes.Equal(chain.ItemBytes(f[0]), w.eaclBlob(c, vn)) {
-					vn = "?blob"
-				}
+				vn := w.variantOf(w.eaclOffers, c, f)
 				aeacl[c] = vn
 			}
 		}
@@ -667,8 +744,10 @@ func (w *world) observe() map[string]any {
 		require.NoError(w.t, err)
 		if st[0].Type() != stackitem.AnyT {
 			for _, it := range structFields(st[0]) {
-				if bytes.Equal(chain.ItemBytes(it), w.vars["b"].pub) {
-					idk = append(idk, o)
+				if w.bKeys[o][hex.EncodeToString(chain.ItemBytes(it))] {
+					if len(idk) == 0 || idk[len(idk)-1] != o {
+						idk = append(idk, o)
+					}
 				} else {
 					w.bad = append(w.bad, "neofsid.unexpected-key:"+o)
 				}
@@ -718,16 +797,18 @@ func (w *world) txtName(data []byte) string {
 func resetRec(idx int, sc *Scenario, obs map[string]any) chain.Rec {
 	return chain.Rec{"t": idx, "act": "reset", "S": []string{}, "c": "nil", "v": "nil", "nm": "nil", "meta": false, "o": "nil", "k": "nil",
 		"amt": 0, "res": "HALT", "ret": "null", "ntf": []any{}, "xfer": []any{}, "c2": "nil", "v2": "nil", "nm2": "nil", "meta2": false,
-		"res2": "nil", "ntf2": []any{}, "xfer2": []any{}, "obs": obs, "bad": []string{}, "badAmt": []string{},
+		"res2": "nil", "ntf2": []any{}, "xfer2": []any{}, "kb": false, "ash": 0, "obs": obs, "bad": []string{}, "badAmt": []string{},
 		"n": sc.N, "scale": sc.Scale, "src": sc.Src}
 }
 
 func runScenario(t *testing.T, rec *chain.Recorder, idx int, sc *Scenario, seed int64) {
-	w := newWorld(t, sc.N, sc.Scale, seed+int64(idx))
+	w := newWorld(t, sc.N, sc.Scale, seed+int64(idx), sc.VerLen)
 	obs := w.observe()
 	require.Empty(t, w.bad, "initial observation")
 	require.Empty(t, w.badAmt, "initial observation")
-	rec.Emit(resetRec(idx, sc, obs))
+	rr := resetRec(idx, sc, obs)
+	rr["verlen"] = w.verLen
+	rec.Emit(rr)
 	for _, st := range sc.Steps {
 		if (st.Act == "put" || st.Act == "put2") && (st.C == "c0" || st.C2 == "c0") {
 			continue // c0 is the never-used id
@@ -802,8 +883,9 @@ func randScenario(r *rand.Rand) *Scenario {
 				}
 			}
 			s := sig()
-			sc.Steps = append(sc.Steps, Step{Act: "put", S: s, C: c, V: pick(vs), Nm: nm, Meta: meta, O: "nil", K: "nil"})
-			if len(s) > 0 && s[0] == "ALPHA" && bal[o] >= need {
+			kb := r.Intn(12) == 0 // a publicKey of another length: the put FAULTs
+			sc.Steps = append(sc.Steps, Step{Act: "put", S: s, C: c, V: pick(vs), Nm: nm, Meta: meta, Kb: kb, O: "nil", K: "nil"})
+			if len(s) > 0 && s[0] == "ALPHA" && bal[o] >= need && !kb {
 				bal[o] -= need // approximately (the put may fail for other reasons)
 			}
 		case k == 8 || k == 9:
@@ -855,7 +937,7 @@ func randScenario(r *rand.Rand) *Scenario {
 		case k < 12:
 			sc.Steps = append(sc.Steps, Step{Act: "delete", S: sig(), C: pick(allc), V: "nil", Nm: "nil", O: "nil", K: "nil"})
 		case k < 15:
-			sc.Steps = append(sc.Steps, Step{Act: "setEACL", S: sig(), C: pick(allc), V: pick(vs), Nm: "nil", O: "nil", K: "nil"})
+			sc.Steps = append(sc.Steps, Step{Act: "setEACL", S: sig(), C: pick(allc), V: pick(vs), Nm: "nil", Kb: r.Intn(12) == 0, O: "nil", K: "nil"})
 		case k < 18:
 			if !withFees {
 				continue
@@ -928,6 +1010,9 @@ func trapLifecycle(n int) *Scenario {
 		st("put", sA, "c1", "a", "nil"),
 		st("put", sA, "c1", "b", "nil"), // re-put live with another descriptor
 		st("setEACL", sA, "c1", "a", "nil"),
+		{Act: "setEACL", S: sA, C: "c1", V: "b", Nm: "nil", Kb: true, O: "nil", K: "nil"}, // key of another length
+		{Act: "put", S: sA, C: "c2", V: "a", Nm: "nil", Kb: true, O: "nil", K: "nil"},
+		{Act: "put", S: sA, C: "c2", V: "b", Nm: "nil", Kb: true, O: "nil", K: "nil"},
 		st("setEACL", sA, "c1", "b", "nil"),
 		st("put", sA, "c2", "a", "n1"),
 		st("put", sA, "c3", "a", "n1"), // taken
